@@ -163,10 +163,20 @@ pub fn explore_case(ctx: &Ctx, case: &Case, opts: RunOpts, extra: Extra) -> Stat
                     else {
                         continue;
                     };
-                    let accepted = out
+                    // a refused call to a method without ordered patterns (no clause at all, or no
+                    // matching unordered pattern) is not a deviation from the ordered sequence: one
+                    // such call per history is allowed inside a prefix that goes on
+                    let refused_unordered = out
                         .preds
                         .iter()
-                        .all(|p| !matches!(p, Pred::MockPanic(..) | Pred::Unspecified(_)));
+                        .filter(|p| matches!(p, Pred::MockPanic(crate::model::PanicClass::NoMockImpl | crate::model::PanicClass::NoMatch, _)))
+                        .count();
+                    let accepted = refused_unordered <= 1
+                        && out.preds.iter().all(|p| match p {
+                            Pred::MockPanic(crate::model::PanicClass::NoMockImpl | crate::model::PanicClass::NoMatch, _) => true,
+                            Pred::MockPanic(..) | Pred::Unspecified(_) => false,
+                            _ => true,
+                        });
                     if accepted && h.len() < *max_depth {
                         frontier.push(h);
                     } else if !accepted {
